@@ -42,6 +42,9 @@ type Cfg struct {
 	RestartFirst bool `json:"restartFirst"`
 	// CaseVar: the recipients differ only by the letter case of the local part
 	CaseVar bool `json:"caseVar"`
+	// Sts (variant (b), remote): "wild" = wildcard MTA-STS policy and an A-label MX host,
+	// "nil" = the policy cache returns neither a policy nor an error
+	Sts string `json:"sts"`
 }
 
 type Step struct {
